@@ -192,6 +192,13 @@ func (d *driver) park(c Cmd) {
 		return
 	}
 	d.sweepDone(nil)
+	if c.Arg == 1 {
+		// the other deferral path: the operation starts when the dispatch counter has reached its limit
+		// (as at the bottom of a long chain of inline completions) and goes to the poller untried
+		saved := d.ioc.Dispatched
+		d.ioc.Dispatched = sonic.MaxCallbackDispatch
+		defer func() { d.ioc.Dispatched = saved }()
+	}
 	flag, done := d.startOp(o, c.Dir)
 	if c.Dir == "r" {
 		o.flagR, o.doneR, o.repR = flag, done, false
